@@ -117,7 +117,7 @@ def specCreate (s : SRepo) (nsArg : Option Name) (inst : Inst) : SRepo × Out :=
     match findCls e.classes inst.cls with
     | none => (s, errClass)
     | some c =>
-      if !(inst.props.all (validProp c)) then (s, errParam)
+      if !(inst.props.all (validProp e.classes c)) then (s, errParam)
       else
         let i : Inst := { cls := inst.cls, props := adjustNames c inst.props }
         if c.isAssoc && !((i.props.filter isRef).all (fun p => sEndpointOk s p.val)) then (s, errParam)
@@ -132,8 +132,8 @@ def specCreate (s : SRepo) (nsArg : Option Name) (inst : Inst) : SRepo × Out :=
               else (sInsertAll s path i tg, .path (normPath path))
 
 /-- the properties ModifyInstance may carry: declared, right type, key values unchanged -/
-def sPropOk (c : Cls) (stored : List PropV) (p : PropV) : Bool :=
-  validProp c p &&
+def sPropOk (cs : List Cls) (c : Cls) (stored : List PropV) (p : PropV) : Bool :=
+  validProp cs c p &&
     (match findDecl c p.name with
      | some d => !d.isKey || (match findProp stored p.name with | some sp => !valNe p.val sp.val | none => false)
      | none => false)
@@ -168,7 +168,7 @@ def specModify (s : SRepo) (path : Path) (inst : Inst) (pl : Option (List Name))
         | none => (s, errNotFound)
         | some old =>
           if plBad c pl then (s, errParam)
-          else if !(inst.props.all (sPropOk c old.props)) then (s, errParam)
+          else if !(inst.props.all (sPropOk e.classes c old.props)) then (s, errParam)
           else if !((pl.getD []).all (sPlKeyOk c old.props inst.props)) then (s, errParam)
           else
             let ps := adjustNames c (reduceByPl c inst.props pl)
